@@ -486,6 +486,8 @@ pub fn gen_c05(run: &mut Run, seed: u64, thorough: bool) {
                         }
                     } else if i.g.rng.chance(1, 4) && bal > 0 {
                         (bal, "amt-bal")
+                    } else if i.g.rng.chance(1, 6) && bal > 0 {
+                        (1, "amt1")
                     } else {
                         ((i.g.rng.range(1, 60) as i128).min(bal.max(1)), "amt-small")
                     };
@@ -505,7 +507,7 @@ pub fn gen_c05(run: &mut Run, seed: u64, thorough: bool) {
                             _ => (100000, "gas-unaffordable"),
                         }
                     } else {
-                        (i.g.rng.range(1, 9) as i128, "gas-ok")
+                        if i.g.rng.chance(1, 5) { (1, "gas1") } else { (i.g.rng.range(1, 9) as i128, "gas-ok") }
                     };
                     let (auth, aucl) = if dev == 3 {
                         match i.g.rng.below(5) {
@@ -532,6 +534,7 @@ pub fn gen_c05(run: &mut Run, seed: u64, thorough: bool) {
                         0 => (0, "amt0"),
                         1 => (custody, "amt-custody"),
                         2 => (custody + 1, "amt-custody+1"),
+                        3 => (1, "amt1"),
                         _ => (i.g.rng.range(1, 40) as i128, "amt-small"),
                     };
                     let with_data = i.g.rng.chance(1, 3);
@@ -624,12 +627,12 @@ pub fn gen_c11(run: &mut Run, seed: u64, thorough: bool) {
             }
             // deployments: deployers x salts x supply x minter
             let mut n = 0u8;
-            let supplies: Vec<i128> = vec![-5, 0, 7];
+            let supplies: Vec<i128> = vec![-5, 0, 1, 7];
             let mut deployed: Vec<([u8; 32], Addr)> = vec![];
             for (di, deployer) in users.iter().take(2).enumerate() {
                 for supply in &supplies {
                     for mk in 0..4 {
-                        if !thorough && (di + mk + (*supply as usize & 1)) % 2 == 1 && *supply != 7 {
+                        if !thorough && (di + mk + (*supply as usize & 1)) % 2 == 1 && *supply != 7 && *supply != 1 {
                             continue;
                         }
                         n += 1;
